@@ -584,8 +584,25 @@ func privateTypeLifeCycle() {
 		}
 	}
 	mention("before")
-	dns.PrivateHandle("VPRIVC", code, func() dns.PrivateRdata { return new(c05Priv) })
-	mention("registered")
-	dns.PrivateHandleRemove(code)
-	mention("removed")
+	// the mnemonic as the caller spells it: upper, mixed and lower case
+	for _, name := range []string{"VPRIVC", "Geo", "vlower", "MiXeD9"} {
+		dns.PrivateHandle(name, code, func() dns.PrivateRdata { return new(c05Priv) })
+		mention("registered")
+		own := dns.TypeToRR[code]()
+		*own.Header() = dns.RR_Header{Name: "a.example.", Rrtype: code, Class: 1, Ttl: 5}
+		own.(*dns.PrivateRR).Data.(*c05Priv).b = []byte{1, 2, 3}
+		txt := own.String()
+		stats["private_type_lifecycle_checked"]++
+		if back, err := dns.NewRR(txt); err != nil || back == nil || back.Header().Rrtype != code || back.String() != txt {
+			Viol("C05/private-type/own-record-not-rereadable", fmt.Sprintf("a record of a private type registered as %q prints as %q, which is not read back to the same record (%v)", name, txt, err), map[string]string{"text": txt})
+		}
+		for _, spell := range []string{name, strings.ToUpper(name), strings.ToLower(name)} {
+			line := "a.example.\t5\tIN\t" + spell + "\t010203"
+			if back, err := dns.NewRR(line); err != nil || back == nil || back.Header().Rrtype != code {
+				Viol("C05/private-type/mnemonic-case", fmt.Sprintf("the mnemonic of a private type registered as %q is not recognised when written %q (%v)", name, spell, err), map[string]string{"text": line})
+			}
+		}
+		dns.PrivateHandleRemove(code)
+		mention("removed")
+	}
 }
